@@ -67,6 +67,6 @@ def replay(t):
     postname = "-" if obj is None or kind == "doc" else str(obj.name)
     if op == "ctor":
         prename = postname          # a constructor has no previous name
-    yield {"src": "model", "op": op, "kind": kind, "in": inp, "out": out, "exc": exc,
+    yield {"fam": "tree", "src": "model", "op": op, "kind": kind, "in": inp, "out": out, "exc": exc,
            "pre": pre, "post": post, "prename": prename, "postname": postname,
            "concrete": repr(conc_in(inp))}
